@@ -2,7 +2,7 @@
 //! every thread was handed, for the extracted model/acceptors.
 //!
 //! Case kinds (`--n` is the total budget of next_timestamp calls):
-//!   T <serial> <warn 0|1> <threads> <calls-per-thread> <pace>
+//!   T <serial> <warn 0|1|2> <threads> <calls-per-thread> <pace>      (warn 2 = with_warning_times(1 us, 0))
 //!       | <seq>;<seq>;...;<seq> <final>
 //!     one generator shared by <threads> OS threads released by a barrier; each records the
 //!     values it is handed, in order; after joining, the main thread makes one more call
@@ -10,6 +10,20 @@
 //!     2 yield_now between calls, 3 staggered starts + bursts, 4 two phases: every thread makes the
 //!     first half of its calls, all threads meet at a barrier, then the second half (every
 //!     second-phase value must exceed every first-phase value).
+//!     pace 5: tick sweep on the real clock - all threads are released together by a spin barrier again and
+//!     again, each time at a chosen offset (-400..+400 ns in steps of 16 ns) from the next microsecond tick of
+//!     the system clock, and make 3 calls each.  pace 6/7: the same generator under a SCRIPTED clock (see C):
+//!     the reading is a function of a global read counter - it stalls for 4 (pace 6) or 32 (pace 7) reads,
+//!     regularly steps backwards and is sometimes before the epoch - so all threads straddle every tick.
+//!   C <serial> <warn 0|1> <calls> <profile>
+//!       | <reading>:<value>,...
+//!     single thread under a SCRIPTED clock: this binary defines the C symbol `clock_gettime` itself, which
+//!     the statically linked std (SystemTime::now inside the real compute_next) then calls; for CLOCK_REALTIME
+//!     it returns the scripted reading, everything else is forwarded to libc.  One reading per call; reading =
+//!     microseconds since the epoch as unsigned hex, or 'n' = before the epoch.  Every returned value must be
+//!     exactly compute_next(previous value, reading).  profile 0: small steps, repeats, backward steps,
+//!     pre-epoch; 1: also jumps of minutes/years (with warn = 1 this exercises the clock-skew warning branch);
+//!     2 (warn = 0 only): readings beyond i64::MAX microseconds (`as i64` wraps).
 //!   B <serial> <warn 0|1> <calls> <pace>
 //!       | t0,v,t1,t0,v,t1,...
 //!     single thread; the harness reads the same clock (SystemTime, microseconds) just before
@@ -18,15 +32,18 @@
 //!     pace: 0 tight (the generator runs ahead of the clock: v = last + 1 exactly),
 //!     1 random spins of 0..40 us, 2 occasional 1 ms sleeps.
 //!   E <serial> <gen 0|1> <requests>
-//!       | <kind>.<explicit>.<observed>,... <consults> <frames>
+//!       | <kind>.<explicit>.<observed>[+<observed of the re-sent frame>...],... <consults> <unmatched>
 //!     end-to-end: a real Session (with a MonotonicTimestampGenerator wrapped in a call counter when
 //!     gen = 1, without any generator when gen = 0) sends <requests> concurrent unprepared queries
 //!     (kind q), prepared executes (x) and batches (b) to a one-node mocknode; a seeded part of them
 //!     carries an explicit statement timestamp (boundary values included).  Per request, in request
 //!     order: the explicit timestamp ('n' = none) and the timestamp field of the frame the mock
-//!     received ('n' = flag not set, 'missing' = no frame seen, 'dup' = more than one frame).  <consults> =
-//!     number of next_timestamp calls during the window, <frames> = number of QUERY/EXECUTE/BATCH
-//!     frames the mock received during the window.
+//!     received ('n' = flag not set, 'missing' = no frame seen); a request whose EXECUTE/BATCH was answered
+//!     UNPREPARED (scripted for the first EXECUTEs, by eviction for the second half) is re-sent and shows two
+//!     frames.  kinds: q i p = unprepared unpaged / iter / single page, x j s = prepared ditto, b = batch of
+//!     unprepared statements, c = batch with the prepared statement.  <consults> = number of next_timestamp
+//!     calls during the window, <unmatched> = QUERY/EXECUTE/BATCH frames of the window that belong to no
+//!     request of the plan (internal traffic of the driver).
 //! Encoding of integer lists: the first token and every token starting with '=' are absolute
 //! signed hex values; other tokens are signed hex deltas to the previous value of the same
 //! stream (for B: previous t0 / v / t1 respectively).
@@ -39,6 +56,180 @@ use std::sync::{Arc, Barrier};
 use vh::mocknode::{self as mock, wire, op, Ev};
 use std::time::{Duration, Instant, SystemTime, UNIX_EPOCH};
 use vh::*;
+
+// ---- scripted clock -----------------------------------------------------------------------------
+// The executable defines `clock_gettime`; the static link resolves std's reference to it (a definition in
+// the executable wins over the shared libc).  Mode 0 forwards everything to libc's function.
+#[repr(C)]
+pub struct Timespec {
+    tv_sec: i64,
+    tv_nsec: i64,
+}
+unsafe extern "C" {
+    fn dlsym(handle: *mut std::ffi::c_void, symbol: *const std::ffi::c_char) -> *mut std::ffi::c_void;
+}
+static REAL_CLOCK: std::sync::atomic::AtomicUsize = std::sync::atomic::AtomicUsize::new(0);
+static CLOCK_MODE: std::sync::atomic::AtomicUsize = std::sync::atomic::AtomicUsize::new(0);
+static CLOCK_READS: AtomicU64 = AtomicU64::new(0);
+// mode 1: readings (sec, nsec) from a script, one per read, the last one repeated
+static SCRIPT_PTR: std::sync::atomic::AtomicPtr<(i64, i64)> = std::sync::atomic::AtomicPtr::new(std::ptr::null_mut());
+static SCRIPT_LEN: std::sync::atomic::AtomicUsize = std::sync::atomic::AtomicUsize::new(0);
+// mode 2: reading = function of the global read counter
+static FN_BASE_US: AtomicU64 = AtomicU64::new(0);
+static FN_STALL: AtomicU64 = AtomicU64::new(1);
+
+/// the reading of mode 2 for read number c: (sec, nsec)
+fn fn_clock(c: u64) -> (i64, i64) {
+    let k = c / FN_STALL.load(Ordering::Relaxed).max(1);
+    if k % 29 == 13 {
+        return (-1, 0); // before the epoch
+    }
+    let mut us = FN_BASE_US.load(Ordering::Relaxed) + k;
+    if k % 11 == 7 {
+        us -= 50; // a step backwards
+    }
+    ((us / 1_000_000) as i64, ((us % 1_000_000) * 1000) as i64)
+}
+
+#[unsafe(no_mangle)]
+pub unsafe extern "C" fn clock_gettime(clk: i32, ts: *mut Timespec) -> i32 {
+    let mode = CLOCK_MODE.load(Ordering::Relaxed);
+    if mode != 0 && clk == 0 {
+        // CLOCK_REALTIME
+        let c = CLOCK_READS.fetch_add(1, Ordering::SeqCst);
+        let (sec, nsec) = if mode == 1 {
+            let len = SCRIPT_LEN.load(Ordering::Relaxed);
+            let p = SCRIPT_PTR.load(Ordering::Relaxed);
+            unsafe { *p.add((c as usize).min(len - 1)) }
+        } else {
+            fn_clock(c)
+        };
+        unsafe {
+            (*ts).tv_sec = sec;
+            (*ts).tv_nsec = nsec;
+        }
+        return 0;
+    }
+    let mut f = REAL_CLOCK.load(Ordering::Relaxed);
+    if f == 0 {
+        // RTLD_NEXT = -1
+        f = unsafe { dlsym(usize::MAX as *mut std::ffi::c_void, c"clock_gettime".as_ptr()) } as usize;
+        if f == 0 {
+            return -1;
+        }
+        REAL_CLOCK.store(f, Ordering::Relaxed);
+    }
+    let real: unsafe extern "C" fn(i32, *mut Timespec) -> i32 = unsafe { std::mem::transmute(f) };
+    unsafe { real(clk, ts) }
+}
+
+fn new_gen3(warn: u64) -> MonotonicTimestampGenerator {
+    match warn {
+        0 => MonotonicTimestampGenerator::new().without_warnings(),
+        1 => MonotonicTimestampGenerator::new(),
+        _ => MonotonicTimestampGenerator::new().with_warning_times(Duration::from_micros(1), Duration::from_micros(0)),
+    }
+}
+
+/// C: single thread, scripted readings
+fn run_c(warn: u64, calls: usize, profile: u64, seed: u64) -> String {
+    let mut r = Rng::new(seed);
+    let mut readings: Vec<(i64, i64)> = Vec::with_capacity(calls);
+    let mut us: i128 = 1_700_000_000_000_000 + r.below(1_000_000) as i128;
+    for _ in 0..calls {
+        let pre_epoch = r.chance(1, 25);
+        match r.below(10) {
+            0..=2 => {}                                   // the clock repeats
+            3..=5 => us += r.range(1, 3) as i128,         // small step
+            6 => us -= r.range(1, 40) as i128,            // step backwards
+            7 => us += r.range(1, 2000) as i128,
+            8 => {
+                if profile >= 1 {
+                    // minutes .. years, both directions
+                    let d = *r.pick(&[60_000_000i128, 3_600_000_000, 86_400_000_000, 31_536_000_000_000_000 / 1000]);
+                    if r.bool() { us += d } else { us -= d.min(us - 1_000_000) }
+                }
+            }
+            _ => {
+                if profile >= 2 {
+                    // beyond i64::MAX microseconds: `as i64` wraps
+                    us = (1i128 << 63) + r.below(1 << 40) as i128 * if r.bool() { 1 } else { 3 };
+                }
+            }
+        }
+        if us < 0 {
+            us = 0;
+        }
+        if pre_epoch {
+            readings.push((-(r.range(1, 1000) as i64), (r.below(1_000_000_000)) as i64));
+        } else {
+            readings.push(((us / 1_000_000) as i64, ((us % 1_000_000) * 1000 + r.below(1000) as i128) as i64));
+        }
+        if profile >= 2 && us >= (1i128 << 63) && r.chance(1, 3) {
+            us = 1_700_000_000_000_000; // and back to a sane reading
+        }
+    }
+    let generator = new_gen3(warn);
+    SCRIPT_LEN.store(readings.len(), Ordering::SeqCst);
+    SCRIPT_PTR.store(readings.as_mut_ptr(), Ordering::SeqCst);
+    CLOCK_READS.store(0, Ordering::SeqCst);
+    CLOCK_MODE.store(1, Ordering::SeqCst);
+    let mut vals = Vec::with_capacity(calls);
+    let res = catch(std::panic::AssertUnwindSafe(|| {
+        for _ in 0..calls {
+            vals.push(generator.next_timestamp());
+        }
+    }));
+    CLOCK_MODE.store(0, Ordering::SeqCst);
+    let reads = CLOCK_READS.load(Ordering::SeqCst);
+    SCRIPT_PTR.store(std::ptr::null_mut(), Ordering::SeqCst);
+    if res.is_err() {
+        return format!("panic after {} calls", vals.len());
+    }
+    if reads != calls as u64 {
+        return format!("error clock was read {} times for {} calls", reads, calls);
+    }
+    let toks: Vec<String> = readings
+        .iter()
+        .zip(&vals)
+        .map(|((sec, nsec), v)| {
+            let rd = if *sec < 0 { "n".to_string() } else { format!("{:x}", *sec as u128 * 1_000_000 + (*nsec as u128) / 1000) };
+            format!("{}:{}", rd, hex_i(*v as i128))
+        })
+        .collect();
+    if toks.is_empty() { "-".into() } else { toks.join(",") }
+}
+
+/// all threads leave together (spin barrier; the last one to arrive runs `leader` first)
+struct SpinBarrier {
+    n: usize,
+    count: std::sync::atomic::AtomicUsize,
+    generation: std::sync::atomic::AtomicUsize,
+}
+impl SpinBarrier {
+    fn wait(&self, leader: impl FnOnce()) {
+        let g = self.generation.load(Ordering::SeqCst);
+        if self.count.fetch_add(1, Ordering::SeqCst) == self.n - 1 {
+            leader();
+            self.count.store(0, Ordering::SeqCst);
+            self.generation.fetch_add(1, Ordering::SeqCst);
+        } else {
+            let mut spins = 0u32;
+            while self.generation.load(Ordering::SeqCst) == g {
+                spins += 1;
+                if spins % 4096 == 0 {
+                    std::thread::yield_now();
+                } else {
+                    std::hint::spin_loop();
+                }
+            }
+        }
+    }
+}
+
+fn now_ns() -> u128 {
+    SystemTime::now().duration_since(UNIX_EPOCH).map(|d| d.as_nanos()).unwrap_or(0)
+}
 
 fn new_gen(warn: bool) -> MonotonicTimestampGenerator {
     if warn { MonotonicTimestampGenerator::new() } else { MonotonicTimestampGenerator::new().without_warnings() }
@@ -88,14 +279,24 @@ fn enc_stream(out: &mut String, vals: impl Iterator<Item = i64>) {
     }
 }
 
-fn run_t(warn: bool, threads: usize, calls: usize, pace: u64, seed: u64) -> String {
-    let generator = new_gen(warn);
+fn run_t(warn: u64, threads: usize, calls: usize, pace: u64, seed: u64) -> String {
+    let generator = new_gen3(warn);
     let barrier = Barrier::new(threads);
+    let spin_barrier = SpinBarrier { n: threads, count: Default::default(), generation: Default::default() };
+    let target_ns = std::sync::atomic::AtomicU64::new(0);
+    let round_no = std::sync::atomic::AtomicU64::new(0);
+    if pace == 6 || pace == 7 {
+        FN_BASE_US.store(1_700_000_000_000_000 + (seed & 0xfffff), Ordering::SeqCst);
+        FN_STALL.store(if pace == 6 { 4 } else { 32 }, Ordering::SeqCst);
+        CLOCK_READS.store(0, Ordering::SeqCst);
+        CLOCK_MODE.store(2, Ordering::SeqCst);
+    }
     let seqs: Vec<Vec<i64>> = std::thread::scope(|s| {
         let hs: Vec<_> = (0..threads)
             .map(|i| {
                 let g = &generator;
                 let b = &barrier;
+                let (sb, target_ns, round_no) = (&spin_barrier, &target_ns, &round_no);
                 s.spawn(move || {
                     let mut r = Rng::new(seed ^ (i as u64).wrapping_mul(0x9E3779B97F4A7C15));
                     let mut v = Vec::with_capacity(calls);
@@ -106,6 +307,19 @@ fn run_t(warn: bool, threads: usize, calls: usize, pace: u64, seed: u64) -> Stri
                     for k in 0..calls {
                         if pace == 4 && k == calls / 2 {
                             b.wait();
+                        }
+                        if pace == 5 && k % 3 == 0 {
+                            // release everybody together at a swept offset from the next microsecond tick
+                            sb.wait(|| {
+                                let n = round_no.fetch_add(1, Ordering::SeqCst);
+                                let offset = (n % 51) as i64 * 16 - 400;
+                                let tick = (now_ns() / 1000 + 3) * 1000;
+                                target_ns.store((tick as i128 + offset as i128) as u64, Ordering::SeqCst);
+                            });
+                            let t = target_ns.load(Ordering::SeqCst) as u128;
+                            while now_ns() < t {
+                                std::hint::spin_loop();
+                            }
                         }
                         v.push(g.next_timestamp());
                         match pace {
@@ -129,6 +343,7 @@ fn run_t(warn: bool, threads: usize, calls: usize, pace: u64, seed: u64) -> Stri
             .collect();
         hs.into_iter().map(|h| h.join().unwrap()).collect()
     });
+    CLOCK_MODE.store(0, Ordering::SeqCst);
     let fin = generator.next_timestamp();
     let mut o = String::with_capacity(threads * calls * 3 + 32);
     for (i, sq) in seqs.iter().enumerate() {
@@ -213,7 +428,9 @@ fn gen_explicit(r: &mut Rng) -> i64 {
     }
 }
 
+/// Err = the scenario could not be set up or a request failed for a reason unrelated to timestamps (environment)
 async fn run_e(serial: u64, with_gen: bool, nreq: usize) -> Result<String, String> {
+    use scylla::response::PagingState;
     let table = mock::TableDef::new("t", &[("pk", mock::CqlType::Int)], &[("ck", mock::CqlType::Int)], &[("v", mock::CqlType::Text)]);
     let spec = mock::ClusterSpec::uniform("c18", &[("dc1", 1)], 1, 4, 2)
         .with_keyspace(mock::KeyspaceDef::simple("ks", 1).with_table(table.clone()));
@@ -233,84 +450,115 @@ async fn run_e(serial: u64, with_gen: bool, nreq: usize) -> Result<String, Strin
     cluster.drain_trace();
     let calls0 = counting.calls.load(Ordering::SeqCst);
     let mut r = Rng::new(serial);
+    // request kinds: unprepared q (unpaged) i (iter) p (single page); prepared x (unpaged) j (iter) s (single page);
+    // batches b (unprepared statements) c (an unprepared and the prepared statement)
+    let kinds = ['q', 'x', 'b', 'i', 'j', 'c', 'p', 's'];
     let plan: Vec<(char, Option<i64>)> = (0..nreq)
-        .map(|i| (['q', 'x', 'b'][i % 3], if r.chance(2, 5) { Some(gen_explicit(&mut r)) } else { None }))
+        .map(|i| (kinds[i % kinds.len()], if r.chance(2, 5) { Some(gen_explicit(&mut r)) } else { None }))
         .collect();
-    let mut tasks = Vec::new();
-    for (i, (kind, explicit)) in plan.iter().cloned().enumerate() {
-        let session = session.clone();
-        let mut prepared = prepared.clone();
-        tasks.push(tokio::spawn(async move {
-            match kind {
-                'q' => {
-                    let mut st = Statement::new(format!("INSERT INTO ks.t (pk, ck, v) VALUES ({}, 0, 'q')", i));
-                    st.set_timestamp(explicit);
-                    session.query_unpaged(st, ()).await.map(|_| ()).map_err(|e| e.to_string())
+    // the first EXECUTEs of the statement are answered UNPREPARED: the driver re-prepares and RE-SENDS the frame
+    let n_unprepared = (nreq / 6).max(2);
+    cluster.script(mock::NodeSel::Any, insert, vec![mock::Action::Unprepared; n_unprepared]);
+    let half = nreq / 2;
+    for phase in 0..2 {
+        if phase == 1 {
+            // forget every prepared statement: the EXECUTEs and the batches with the prepared statement of the
+            // second half get UNPREPARED from the node itself
+            cluster.evict_prepared(0, None);
+        }
+        let range = if phase == 0 { 0..half } else { half..nreq };
+        let mut tasks = Vec::new();
+        for i in range {
+            let (kind, explicit) = plan[i];
+            let session = session.clone();
+            let mut prepared = prepared.clone();
+            tasks.push(tokio::spawn(async move {
+                let text = |tag: &str| format!("INSERT INTO ks.t (pk, ck, v) VALUES ({}, 0, '{}')", i, tag);
+                // the result of the request itself is irrelevant here (iterating a Void result is an error for
+                // the *_iter calls): only the frames the node received are judged
+                match kind {
+                    'q' | 'i' | 'p' => {
+                        let mut st = Statement::new(text("q"));
+                        st.set_timestamp(explicit);
+                        match kind {
+                            'q' => session.query_unpaged(st, ()).await.map(|_| ()).map_err(|e| e.to_string()),
+                            'i' => {
+                                let _ = session.query_iter(st, ()).await;
+                                Ok(())
+                            }
+                            _ => session.query_single_page(st, (), PagingState::start()).await.map(|_| ()).map_err(|e| e.to_string()),
+                        }
+                    }
+                    'x' | 'j' | 's' => {
+                        prepared.set_timestamp(explicit);
+                        match kind {
+                            'x' => session.execute_unpaged(&prepared, (i as i32, 1i32, "x")).await.map(|_| ()).map_err(|e| e.to_string()),
+                            'j' => {
+                                let _ = session.execute_iter(prepared, (i as i32, 1i32, "x")).await;
+                                Ok(())
+                            }
+                            _ => session
+                                .execute_single_page(&prepared, (i as i32, 1i32, "x"), PagingState::start())
+                                .await
+                                .map(|_| ())
+                                .map_err(|e| e.to_string()),
+                        }
+                    }
+                    'b' => {
+                        let mut batch = Batch::default();
+                        batch.append_statement(Statement::new(text("b")));
+                        batch.append_statement(Statement::new("INSERT INTO ks.t (pk, ck, v) VALUES (0, 3, 'b2')"));
+                        batch.set_timestamp(explicit);
+                        session.batch(&batch, ((), ())).await.map(|_| ()).map_err(|e| e.to_string())
+                    }
+                    _ => {
+                        let mut batch = Batch::default();
+                        batch.append_statement(Statement::new(text("c")));
+                        batch.append_statement(prepared);
+                        batch.set_timestamp(explicit);
+                        session.batch(&batch, ((), (i as i32, 4i32, "c"))).await.map(|_| ()).map_err(|e| e.to_string())
+                    }
                 }
-                'x' => {
-                    prepared.set_timestamp(explicit);
-                    session.execute_unpaged(&prepared, (i as i32, 1i32, "x")).await.map(|_| ()).map_err(|e| e.to_string())
-                }
-                _ => {
-                    let mut batch = Batch::default();
-                    batch.append_statement(Statement::new(format!("INSERT INTO ks.t (pk, ck, v) VALUES ({}, 2, 'b')", i)));
-                    batch.append_statement(Statement::new("INSERT INTO ks.t (pk, ck, v) VALUES (0, 3, 'b2')"));
-                    batch.set_timestamp(explicit);
-                    session.batch(&batch, ((), ())).await.map(|_| ()).map_err(|e| e.to_string())
-                }
-            }
-        }));
-    }
-    for t in tasks {
-        t.await.map_err(|e| format!("join: {e}"))?.map_err(|e| format!("request: {e}"))?;
+            }));
+        }
+        for t in tasks {
+            t.await.map_err(|e| format!("join: {e}"))?.map_err(|e| format!("request: {e}"))?;
+        }
     }
     let consults = counting.calls.load(Ordering::SeqCst) - calls0;
     let trace = cluster.drain_trace();
-    // observed[i] = timestamps of the frames carrying request i
+    // observed[i] = timestamps of the frames carrying request i, in arrival order
     let mut observed: Vec<Vec<Option<i64>>> = vec![vec![]; nreq];
-    let mut frames = 0u64;
+    let mut unmatched = 0u64;
     let id_of_text = |text: &str| -> Option<usize> {
         let rest = text.strip_prefix("INSERT INTO ks.t (pk, ck, v) VALUES (")?;
         rest.split(',').next()?.trim().parse::<usize>().ok()
     };
     for e in &trace {
         if let Ev::In { opcode, body, .. } = &e.ev {
-            match *opcode {
+            let hit: Option<(usize, Option<i64>)> = match *opcode {
                 op::QUERY => {
-                    frames += 1;
                     let q = wire::decode_query(body).map_err(|e| format!("decode QUERY: {e:?}"))?;
-                    if let Some(i) = id_of_text(&q.text) {
-                        if i < nreq {
-                            observed[i].push(q.params.timestamp);
-                        }
-                    }
+                    id_of_text(&q.text).map(|i| (i, q.params.timestamp))
                 }
                 op::EXECUTE => {
-                    frames += 1;
                     let x = wire::decode_execute(body, false).map_err(|e| format!("decode EXECUTE: {e:?}"))?;
-                    if x.id == prepared_id {
-                        if let Some(b) = x.params.values.first().and_then(|v| v.as_bytes()) {
-                            if b.len() == 4 {
-                                let i = i32::from_be_bytes([b[0], b[1], b[2], b[3]]) as usize;
-                                if i < nreq {
-                                    observed[i].push(x.params.timestamp);
-                                }
-                            }
-                        }
-                    }
+                    let id = x.params.values.first().and_then(|v| v.as_bytes()).filter(|b| b.len() == 4 && x.id == prepared_id)
+                        .map(|b| i32::from_be_bytes([b[0], b[1], b[2], b[3]]) as usize);
+                    id.map(|i| (i, x.params.timestamp))
                 }
                 op::BATCH => {
-                    frames += 1;
                     let bt = wire::decode_batch(body).map_err(|e| format!("decode BATCH: {e:?}"))?;
-                    if let Some(wire::BatchStmt::Query { text, .. }) = bt.statements.first() {
-                        if let Some(i) = id_of_text(text) {
-                            if i < nreq {
-                                observed[i].push(bt.timestamp);
-                            }
-                        }
+                    match bt.statements.first() {
+                        Some(wire::BatchStmt::Query { text, .. }) => id_of_text(text).map(|i| (i, bt.timestamp)),
+                        _ => None,
                     }
                 }
-                _ => {}
+                _ => continue,
+            };
+            match hit {
+                Some((i, ts)) if i < nreq => observed[i].push(ts),
+                _ => unmatched += 1, // internal traffic of the driver inside the window
             }
         }
     }
@@ -319,17 +567,13 @@ async fn run_e(serial: u64, with_gen: bool, nreq: usize) -> Result<String, Strin
         .iter()
         .zip(&observed)
         .map(|((kind, explicit), obs)| {
-            let o = match obs.len() {
-                0 => "missing".to_string(),
-                1 => opt(obs[0]),
-                _ => "dup".to_string(),
-            };
+            let o = if obs.is_empty() { "missing".to_string() } else { obs.iter().map(|x| opt(*x)).collect::<Vec<_>>().join("+") };
             format!("{}.{}.{}", kind, opt(*explicit), o)
         })
         .collect();
     drop(session);
     cluster.shutdown();
-    Ok(format!("{} {:x} {:x}", if toks.is_empty() { "-".to_string() } else { toks.join(",") }, consults, frames))
+    Ok(format!("{} {:x} {:x}", if toks.is_empty() { "-".to_string() } else { toks.join(",") }, consults, unmatched))
 }
 
 fn run_case(case: &str) -> String {
@@ -337,11 +581,18 @@ fn run_case(case: &str) -> String {
     let h = |s: &str| u64::from_str_radix(s, 16).unwrap();
     match f[0] {
         "T" if f.len() == 6 => {
-            let (serial, warn, threads, calls, pace) = (h(f[1]), h(f[2]) != 0, h(f[3]) as usize, h(f[4]) as usize, h(f[5]));
-            if threads == 0 || threads > 64 || calls > 4_000_000 {
+            let (serial, warn, threads, calls, pace) = (h(f[1]), h(f[2]), h(f[3]) as usize, h(f[4]) as usize, h(f[5]));
+            if threads == 0 || threads > 64 || calls > 4_000_000 || (pace == 5 && calls % 3 != 0) {
                 return "error bad-parameters".into();
             }
             run_t(warn, threads, calls, pace, serial)
+        }
+        "C" if f.len() == 5 => {
+            let (serial, warn, calls, profile) = (h(f[1]), h(f[2]), h(f[3]) as usize, h(f[4]));
+            if calls == 0 || calls > 4_000_000 || (profile >= 2 && warn != 0) {
+                return "error bad-parameters".into();
+            }
+            run_c(warn, calls, profile, serial)
         }
         "B" if f.len() == 5 => {
             let (serial, warn, calls, pace) = (h(f[1]), h(f[2]) != 0, h(f[3]) as usize, h(f[4]));
@@ -359,7 +610,8 @@ fn run_case(case: &str) -> String {
             let r = rt.block_on(run_e(serial, with_gen, nreq));
             match r {
                 Ok(s) => s,
-                Err(e) => format!("error e2e {}", e.replace(' ', "_")),
+                // nothing was observed: the scenario could not run (counted, capped by checks/c18.py)
+                Err(e) => format!("skip-env {}", e.replace(' ', "_")),
             }
         }
         _ => "error unknown-case".into(),
@@ -391,7 +643,7 @@ fn main() {
     for threads in 2..=16u64 {
         let calls = (cap / 16).min(2_000);
         serial += 1;
-        emit(&mut out, format!("T {:x} {:x} {:x} {:x} 0", serial, threads & 1, threads, calls));
+        emit(&mut out, format!("T {:x} {:x} {:x} {:x} 0", serial, threads % 3, threads, calls));
         budget -= (threads * calls) as i64;
     }
     for threads in [2u64, 5, 16] {
@@ -405,6 +657,21 @@ fn main() {
         emit(&mut out, format!("B {:x} {:x} {:x} {:x}", serial, pace & 1, calls, pace));
         budget -= calls as i64;
     }
+    // tick sweep on the real clock and the scripted-clock paces, for few and many threads
+    for pace in [5u64, 6, 7] {
+        for threads in [2u64, 3, 8, 16] {
+            let calls = if pace == 5 { 3_000 } else { 6_000 };
+            serial += 1;
+            emit(&mut out, format!("T {:x} {:x} {:x} {:x} {:x}", serial, serial % 3, threads, calls, pace));
+            budget -= (threads * calls) as i64;
+        }
+    }
+    // scripted clock, single thread, exact: every profile with every admissible warning configuration
+    for (warn, profile) in [(0u64, 0u64), (1, 0), (2, 0), (0, 1), (1, 1), (2, 1), (0, 2)] {
+        serial += 1;
+        emit(&mut out, format!("C {:x} {:x} {:x} {:x}", serial, warn, 20_000, profile));
+        budget -= 20_000;
+    }
     // end-to-end part: which timestamp goes into the frames
     let e_cases = if thorough { 60 } else { 12 };
     for k in 0..e_cases {
@@ -416,6 +683,12 @@ fn main() {
     while budget > 0 {
         serial += 1;
         if r.chance(1, 8) {
+            let profile = r.below(3);
+            let warn = if profile == 2 { 0 } else { r.below(3) };
+            let calls = r.range(2_000, 40_000);
+            emit(&mut out, format!("C {:x} {:x} {:x} {:x}", serial, warn, calls, profile));
+            budget -= calls as i64;
+        } else if r.chance(1, 8) {
             let pace = r.below(3);
             let calls = match pace {
                 1 => r.range(500, 4_000),
@@ -429,7 +702,7 @@ fn main() {
                 1 => 16,
                 _ => r.range(2, 16),
             };
-            let pace = r.below(5);
+            let pace = r.below(8);
             let per = match r.below(20) {
                 0 => cap / threads,                     // as large as the cap allows (>= 10^4 per thread for <= 13 threads)
                 1..=3 => r.range(5_000, 20_000).min(cap / threads),
@@ -437,7 +710,8 @@ fn main() {
             };
             let per = if pace == 2 { per.min(3_000) } else { per };
             let per = if pace == 4 { (per / 2 * 2).max(2) } else { per };
-            emit(&mut out, format!("T {:x} {:x} {:x} {:x} {:x}", serial, r.below(2), threads, per, pace));
+            let per = if pace == 5 { (per.min(6_000) / 3 * 3).max(3) } else { per };
+            emit(&mut out, format!("T {:x} {:x} {:x} {:x} {:x}", serial, r.below(3), threads, per, pace));
             budget -= (threads * per) as i64;
         }
     }
